@@ -12,6 +12,7 @@ import Sparrow.Model.PointPatch
 import Sparrow.Model.Stokes
 import Sparrow.Model.Visibility
 import Sparrow.Model.Nusselt
+import Sparrow.Model.Pipeline
 import Sparrow.Generated.CheckParse
 open Sparrow Driver
 
@@ -550,6 +551,40 @@ def cmdSurfSamples : P String := do
     out := out.push p.x |>.push p.y |>.push p.z
   return s!"ok {l.length} | " ++ fmtFloats out
 
+/-- `pipeline W patchSize wallPts[W*12] normals[W*3] ups[W*3] nIn nOut nT refIn[3nIn] refOut[3nOut]
+     tableIdx[W] table[nT*nIn*nOut] att c dt S K src[3] recv[3]`
+    → `ok P D | pairs… | mono[S] | e0[P*D] | F[P*P] | etc[P*D*S]`  (one band, materials and attenuation set) -/
+def cmdPipeline : P String := do
+  let w ← nat
+  let ps ← flt
+  let wp ← flts (w * 12); let wn ← flts (w * 3); let wu ← flts (w * 3)
+  let nIn ← nat; let nOut ← nat; let nT ← nat
+  let ri ← flts (3 * nIn); let ro ← flts (3 * nOut)
+  let ti ← nats w
+  let tb ← flts (nT * nIn * nOut)
+  let att ← flt; let c ← flt; let dt ← flt
+  let sN ← nat; let k ← nat
+  let sv ← flts 3; let rv ← flts 3
+  let room : Room Float := { W := w, wallPts := fun a v => vec3At wp (a * 4 + v), wallNormal := fun a => vec3At wn a,
+                             wallUp := fun a => vec3At wu a, patchSize := ps }
+  let mat : Materials Float := { nIn := nIn, nOut := nOut, refIn := fun i => vec3At ri i, refOut := fun i => vec3At ro i,
+                                 tableIdx := fun a => ti.getD a 0,
+                                 table := fun t a b => tb.getD ((t * nIn + a) * nOut + b) 0, att := some att }
+  match runPipeline (1e-6 : Float) 1e-10 room mat { c := c, dt := dt, S := sN, K := k } (vec3At sv 0) (vec3At rv 0) with
+  | none => return "err other"
+  | some r =>
+    let pr := " ".intercalate (r.pairs.map fun p => s!"{p.1} {p.2}")
+    let mut e0 := Array.mkEmpty (r.P * r.D)
+    for j in [0:r.P] do
+      for d in [0:r.D] do
+        e0 := e0.push (lookup2 r.e0 j d)
+    let mut ff := Array.mkEmpty (r.P * r.P)
+    for i in [0:r.P] do
+      for j in [0:r.P] do
+        ff := ff.push (lookup2 r.F i j)
+    return s!"ok {r.P} {r.D} | " ++ pr ++ " | " ++ fmtFloats r.mono ++ " | " ++ fmtFloats e0 ++ " | " ++
+      fmtFloats ff ++ " | " ++ fmtFloats (flat3 r.P r.D sN r.etc)
+
 def dispatch (cmd : String) : P String :=
   match cmd with
   | "exchange" => cmdExchange
@@ -570,6 +605,7 @@ def dispatch (cmd : String) : P String :=
   | "polyinfo" => cmdPolyInfo
   | "stokes" => cmdStokes
   | "universal" => cmdUniversal
+  | "pipeline" => cmdPipeline
   | "nanalog" => cmdNAnalog
   | "surfsamples" => cmdSurfSamples
   | "basicvis" => cmdBasicVis
